@@ -218,6 +218,24 @@ SCOPE_TEMPLATES = [
     ("compiled-in-function-closure", "def outer():\n    @pyscript_compile\n    def twice(q):\n        return q * 2\n    def use():\n        return twice(4)\n    return use()\ntry:\n    R = outer()\nexcept NameError:\n    R = 'NameError-family'\n"),
     ("compiled-in-function-method", "def outer():\n    @pyscript_compile\n    def twice(q):\n        return q * 2\n    class K:\n        def m(self):\n            return twice(5)\n    return K().m()\ntry:\n    R = outer()\nexcept NameError:\n    R = 'NameError-family'\n"),
     ("compiled-module-level", "@pyscript_compile\ndef twice(q):\n    return q * 2\ndef use():\n    return twice(4)\nR = use()\n"),
+    ("class-staticmethod", "class A:\n    @staticmethod\n    def s(x):\n        return x * 2\na1 = A()\nR = (A.s(2), a1.s(3))\n"),
+    ("class-attr-vs-instance", "class A:\n    n = 0\n    def inc(self):\n        self.n += 1\n        return self.n\na1 = A()\na2 = A()\nR = (a1.inc(), a1.inc(), a2.inc(), A.n)\n"),
+    ("method-all-parameter-kinds", "class A:\n    def m(self, a, b=2, *c, d=4, **e):\n        return (a, b, c, d, e)\na1 = A()\nR = (a1.m(1), a1.m(1, 3, 5, d=6, z=7))\n"),
+    ("bound-method-as-value", "class A:\n    def m(self, x):\n        return x + 1\na1 = A()\nf = a1.m\nR = (f(1), [f(i) for i in range(2)], A.m(a1, 5))\n"),
+    ("explicit-super", "class A:\n    def f(self):\n        return 'A'\nclass B(A):\n    def f(self):\n        return 'B' + super(B, self).f()\nclass C(B):\n    pass\nR = C().f()\n"),
+    ("zero-arg-super", "class A:\n    def f(self):\n        return 'A'\nclass B(A):\n    def f(self):\n        return 'B' + super().f()\ntry:\n    R = B().f()\nexcept RuntimeError:\n    R = 'RuntimeError'\n", "zero-arg-super"),
+    ("classmethod-descriptor", "class A:\n    k = 5\n    @classmethod\n    def c(cls, x):\n        return cls.k + x\ntry:\n    R = A.c(1)\nexcept TypeError:\n    R = 'TypeError'\n", "classmethod-property-descriptor"),
+    ("property-descriptor", "class A:\n    def __init__(self):\n        self._v = 1\n    @property\n    def v(self):\n        return self._v + 10\ntry:\n    R = A().v\nexcept TypeError:\n    R = 'TypeError'\n", "classmethod-property-descriptor"),
+    ("class-closure-counter", "def mk():\n    n = 0\n    class C:\n        def inc(self):\n            nonlocal n\n            n += 1\n            return n\n    return C\nK = mk()\nk1 = K()\nk2 = K()\nR = (k1.inc(), k2.inc(), k1.inc())\n"),
+    ("decorated-method", "def tag(t):\n    def w(fn):\n        def inner(self, *a):\n            return (t, fn(self, *a))\n        return inner\n    return w\nclass A:\n    @tag('x')\n    def m(self, v):\n        return v\nR = A().m(3)\n"),
+    ("default-evaluated-at-def", "k = 1\ndef f(a=k):\n    return a\nk = 2\nR = f()\n"),
+    ("kwargs-is-a-copy", "def f(**kw):\n    kw['z'] = 1\n    return kw\nd = {'a': 1}\nR = (f(**d), d)\n"),
+    ("nested-def-same-name", "def f():\n    def f():\n        return 2\n    return f() + 1\nR = f()\n"),
+    ("function-redefined", "def f():\n    return 1\ng1 = f\ndef f():\n    return 2\nR = (g1(), f())\n"),
+    ("too-many-args-to-method", "class A:\n    def m(self):\n        return 1\ntry:\n    R = A().m(1)\nexcept TypeError:\n    R = 'TypeError'\n"),
+    ("init-keyword-default", "class A:\n    def __init__(self, v=3):\n        self.v = v\nR = (A().v, A(4).v, A(v=5).v)\n"),
+    ("class-in-class", "class A:\n    class B:\n        z = 4\n    def g(self):\n        return A.B.z\nR = (A.B.z, A().g())\n"),
+    ("isinstance-mro", "class A:\n    pass\nclass B(A):\n    pass\nb1 = B()\nR = (isinstance(b1, A), type(b1).__name__, issubclass(B, A), B.__mro__[1].__name__)\n"),
     ("posonly-kwargs", "def f(p, /, **kw):\n    return (p, kw)\ntry:\n    R = f(1, p=2)\nexcept TypeError:\n    R = 'TypeError'\n", "posonly-name-in-kwargs"),
 ]
 
@@ -911,7 +929,8 @@ def classify(c, reason):
             f.append("comp-var-declared-global")
         if "random-nesting" in f and del_declared_global(c.payload["src"]):
             f.append("del-missing-global")
-        for k in ("native-closure", "comp-var-declared-global", "del-missing-global"):   # open findings
+        for k in ("native-closure", "comp-var-declared-global", "del-missing-global", "zero-arg-super",
+                  "classmethod-property-descriptor"):   # open findings
             if k in f:
                 return k
         return "scope:" + "+".join(f)
